@@ -80,12 +80,11 @@ def jdump(obj, **kw):
 # scratch space
 
 def _scratch_base():
-    for cand in (os.environ.get("VERIF_SCRATCH"), "/dev/shm", None):
-        if cand is None:
-            import tempfile
-            return tempfile.gettempdir()
+    for cand in (os.environ.get("VERIF_SCRATCH"), "/dev/shm"):
         if cand and os.path.isdir(cand) and os.access(cand, os.W_OK):
             return cand
+    import tempfile
+    return tempfile.gettempdir()
 
 _TOP = None
 
